@@ -150,7 +150,7 @@ def operand_specs(max_fixed_bits=16, po2_bits=(2, 8)):
     for mv in (None, 0.25, 0.5, 1.0, 2.0, 4.0, 8.0, 16.0):
       specs.append(("po2", bits, mv))
       specs.append(("rpo2", bits, mv))
-  specs += [("ternary",), ("binary",), ("binary01",), ("float",)]
+  specs += [("ternary",), ("binary",), ("binary01",), ("sternary",), ("sbinary",), ("bernoulli",), ("float",)]
   return specs
 
 
@@ -171,6 +171,12 @@ def make_qkeras(spec):
     return Q.binary()
   if k == "binary01":
     return Q.binary(use_01=True)
+  if k == "sternary":
+    return Q.stochastic_ternary()
+  if k == "sbinary":
+    return Q.stochastic_binary()
+  if k == "bernoulli":
+    return Q.bernoulli()
   return None
 
 
